@@ -313,3 +313,6 @@ Proof.
   intros A f g l. induction l as [|a l IH]; intros H; cbn; [reflexivity|].
   rewrite (H a (or_introl eq_refl)), IH; [reflexivity|]. intros x Hx. apply H. now right.
 Qed.
+
+Lemma existsb_map_c : forall {A B} (f : B -> bool) (g : A -> B) l, existsb f (map g l) = existsb (fun x => f (g x)) l.
+Proof. intros A B f g l. induction l as [|a l IH]; cbn; [reflexivity|]. now rewrite IH. Qed.
